@@ -9,6 +9,7 @@ CONSTANTS RelPids, UnrelPids,  \* inbound packet IDs that are reliable / unrelia
           MaxAcks,             \* acknowledgements carried by one inbound packet
           Ticks,               \* clock steps
           MaxSubs, SubKinds,   \* further subscribers per level, and their kinds
+          MaxPings, Oldest,    \* StartPingChecks of the peer, and what they may announce
           StartStates,         \* how the circuit starts: {"pending"} (client endpoint), {"alive"} (bare Circuit) or both
           Lifecycle,           \* TRUE: the handshake may complete and the circuit may be disconnected
           Depth                \* 0: unbounded, else bound on the behaviour length
@@ -22,7 +23,8 @@ AckTargets == relIssued \cup Foreign \cup {lastId + 1}
 AckSets == {S \in SUBSET AckTargets : Cardinality(S) <= MaxAcks}
 
 \* a forgotten ID is dispatched again (the code's choice; the harness does not judge dispatch on such edges)
-RecvRel(p, acks) == Get(rR, p) < MaxRcv /\ Recv(p, TRUE, acks, lastId + 1, TRUE, TRUE)
+\* (a released but still remembered ID is suppressed, as the code does; dispatch is not judged on open edges either way)
+RecvRel(p, acks) == Get(rR, p) < MaxRcv /\ Recv(p, TRUE, acks, lastId + 1, TRUE, ~Remembered(p))
 \* match = FALSE: the packet is a PacketAck message (needs acks to carry), which the extra subscribers did not ask for
 RecvUnrel(p, acks, match) == Get(rU, p) < MaxRcv /\ (match \/ acks # {}) /\ Recv(p, FALSE, acks, -1, match, TRUE)
 DoSubscribe(l, k) == Len(subs[l]) < MaxSubs /\ Subscribe(l, k)
@@ -30,13 +32,15 @@ DoSendRel == Cardinality(relIssued) < MaxSends /\ SendRel(lastId + 1)
 \* unreliable sends are counted through a ghost that needs no extra variable: ids issued that
 \* are neither reliable sends nor acknowledgements (one ack per reliable receipt)
 SumR == LET RECURSIVE S(_) S(D) == IF D = {} THEN 0 ELSE LET k == CHOOSE k \in D : TRUE IN aR[k] + S(D \ {k}) IN S(DOMAIN aR)
-UnrelSent == Len(ids) - Cardinality(relIssued) - SumR
+UnrelSent == Len(ids) - Cardinality(relIssued) - SumR - pongs
+DoPing(o) == pongs < MaxPings /\ Ping(o, lastId + 1)
 DoSendUnrel == UnrelSent < MaxUnrel /\ SendUnrel(lastId + 1)
 
 Next == \/ \E p \in RelPids, acks \in AckSets : RecvRel(p, acks)
         \/ \E p \in UnrelPids, acks \in AckSets, match \in BOOLEAN : RecvUnrel(p, acks, match)
         \/ \E l \in Levels, k \in SubKinds : DoSubscribe(l, k)
         \/ Stray
+        \/ \E o \in Oldest : DoPing(o)
         \/ (Lifecycle /\ (GoAlive \/ Disconnect))
         \/ DoSendRel
         \/ DoSendUnrel
